@@ -1,7 +1,7 @@
 (** The link between the correspondence evaluator and the theorems: a case on
     which the implementation agrees with the repaired model satisfies the spec. *)
 From Coq Require Import List ZArith NArith Bool Lia.
-From DH Require Import Lib.CheckLib Model.Partition Proofs.PartitionProofs Check.C10Check.
+From DH Require Import Lib.CheckLib Model.Partition Proofs.PartitionProofs Model.JsonValue Proofs.JsonValueProofs Check.C10Check.
 Import ListNotations.
 Open Scope Z_scope.
 
@@ -16,9 +16,16 @@ Proof. apply zrange_length. Qed.
 Theorem agree_fixed_spec c :
   0 <= c_n c -> 1 <= c_batch c -> 1 <= c_par c -> c_kind c <> KPushIn ->
   (o_copy c <> None -> c_kind c = KIdentity) ->
+  (forall v v' o o', o_json c = Some (v, v', o, o') -> jsimgb v v' = true) ->
   agree PCeilClip c = true -> spec_ok c = true.
 Proof.
-  intros Hn Hb Hp Hk Hcp. unfold agree, predict, spec_ok.
+  intros Hn Hb Hp Hk Hcp Hjs. unfold agree, predict, spec_ok.
+  destruct (o_json c) as [[[[v v'] o] o']|] eqn:Ejs.
+  { (* value normalisation: the JS image normalises to the same value *)
+    destruct (run_job _ _ _ _ _) as [[[? ?] ?] ?]. intros H.
+    apply andb_true_iff in H. destruct H as [H1 H2].
+    apply jval_eqb_eq in H1. apply jval_eqb_eq in H2. subst o o'.
+    rewrite (jsimg_neutral Fz i2fz v v' (jsimgb_sound v v' (Hjs v v' _ _ eq_refl))). apply jval_eqb_refl. }
   assert (Hf : f_of (c_kind c) = fmap_g (g_of (c_kind c))) by (destruct (c_kind c); try reflexivity; contradiction).
   rewrite Hf.
   set (src := zrange 0 (Z.to_nat (c_n c))).
